@@ -539,6 +539,21 @@ pub fn enumerate(tier: Tier, circs: &[Circ], honest: &[Honest]) -> Vec<Triple> {
                     lie[0] += fe(2);
                 }
                 targets.push(("all-identity", idp, lie));
+                // coordinated faults: commitment i shifted by +T and commitment j by -T, T in the
+                // cofactor torsion: each field alone is not an element of G1, their sum is
+                if let Some(t) = m2::cofactor_torsion_point() {
+                    for i in 0..11usize {
+                        for j in 0..11usize {
+                            if i == j || (tier == Tier::Quick && !(j == i + 1 || (i, j) == (10, 9) || (i, j) == (0, 10))) {
+                                continue;
+                            }
+                            let mut pd = pd0.clone();
+                            pd.comms[i] = G1Affine::from(G1Projective::from(pd.comms[i]) + t);
+                            pd.comms[j] = G1Affine::from(G1Projective::from(pd.comms[j]) - t);
+                            out.push(Triple { m: Mutn::Whole(m2::proof_to_bytes(&pd)), pis: Some(hb.pis.clone()), class: "torsion-pair".into(), what: format!("{}+T,{}-T", m2::COMM_NAMES[i], m2::COMM_NAMES[j]), ..t0.clone() });
+                        }
+                    }
+                }
                 for (nm, pd, pis) in targets {
                     let ch = m2::challenges_u_before_openings(&circs[ci].vd, &pd, &pis, ver);
                     if let Some(f) = m2::forge_openings(&circs[ci].vd, &pd, &pis, ver, ch) {
